@@ -10,6 +10,16 @@ import (
 
 func init() {
 	register(&PropertyCheck{ID: "C04", Level: "proof", Run: checkC04, Canaries: []Canary{
+		{Name: "closure-returns-nil-on-its-second-call", Rule: "R4.2", Where: "(*buffer).getAny", Edits: []Edit{{"subscribe.go", "\treturn map[Ident]func() wireType{\n\t\tSubscriptionID: func() wireType {\n\t\t\tif unmarshal {\n\t\t\t\tp.subscriptionID = new(vbint)", "\tfirst := true\n\treturn map[Ident]func() wireType{\n\t\tSubscriptionID: func() wireType {\n\t\t\tif unmarshal {\n\t\t\t\t// [MQTT-3.8.2.1.2] the subscription identifier may be\n\t\t\t\t// included once only, the first one counts\n\t\t\t\tif first {\n\t\t\t\t\tfirst = false\n\t\t\t\t\tp.subscriptionID = new(vbint)\n\t\t\t\t} else {\n\t\t\t\t\treturn nil\n\t\t\t\t}"}}},
+		{Name: "pointer-parameters-handed-to-the-reader", Silent: true, Edits: []Edit{{"puback.go", "func (p *PubAck) UnmarshalBinary(data []byte) error {\n\tb := &buffer{data: data}\n\tb.get(&p.packetID)\n\t// no more data, see 3.4.2.1 PUBACK Reason Code\n\tif len(data) > 2 {\n\t\tb.get(&p.reasonCode)\n\t\tb.getAny(p.propertyMap(), p.appendUserProperty)\n\t}\n\treturn b.err\n}\n", "func (p *PubAck) UnmarshalBinary(data []byte) error {\n\treturn unmarshalAck(data,\n\t\t&p.packetID, &p.reasonCode, p.propertyMap(), p.appendUserProperty,\n\t)\n}\n\nfunc unmarshalAck(\n\tdata []byte, packetID *wuint16, reasonCode *wuint8,\n\tfields map[Ident]func() wireType, addProp func(UserProp),\n) error {\n\tb := &buffer{data: data}\n\tb.get(packetID)\n\tif len(data) <= 2 {\n\t\treturn b.err\n\t}\n\tb.get(reasonCode)\n\tb.getAny(fields, addProp)\n\treturn b.err\n}\n"}}},
+		{Name: "nil-pointer-handed-to-the-reader", Rule: "R4.2", Where: "(*PubAck).UnmarshalBinary", Edits: []Edit{{"puback.go", "func (p *PubAck) UnmarshalBinary(data []byte) error {\n\tb := &buffer{data: data}\n\tb.get(&p.packetID)\n\t// no more data, see 3.4.2.1 PUBACK Reason Code\n\tif len(data) > 2 {\n\t\tb.get(&p.reasonCode)\n\t\tb.getAny(p.propertyMap(), p.appendUserProperty)\n\t}\n\treturn b.err\n}\n", "func (p *PubAck) UnmarshalBinary(data []byte) error {\n\treturn unmarshalAck(data,\n\t\t&p.packetID, nil, p.propertyMap(), p.appendUserProperty,\n\t)\n}\n\nfunc unmarshalAck(\n\tdata []byte, packetID *wuint16, reasonCode *wuint8,\n\tfields map[Ident]func() wireType, addProp func(UserProp),\n) error {\n\tb := &buffer{data: data}\n\tb.get(packetID)\n\tif len(data) <= 2 {\n\t\treturn b.err\n\t}\n\tb.get(reasonCode)\n\tb.getAny(fields, addProp)\n\treturn b.err\n}\n"}}},
+		{Name: "get-records-errors-through-a-helper", Silent: true, Edits: []Edit{{"buffer.go", "func (b *buffer) get(v wireType) {\n\tif b.err != nil {\n\t\treturn\n\t}\n\tif b.i >= len(b.data) {\n\t\tb.err = ErrMissingData\n\t\treturn\n\t}\n\tif b.err = v.UnmarshalBinary(b.data[b.i:]); b.err != nil {\n\t\treturn\n\t}\n\tn := v.width()\n\tif n > len(b.data)-b.i {\n\t\tb.err = ErrMissingData\n\t\treturn\n\t}\n\tb.i += n\n}\n\n", "func (b *buffer) get(v wireType) {\n\tif b.err != nil {\n\t\treturn\n\t}\n\tif b.i >= len(b.data) {\n\t\tb.fail(ErrMissingData)\n\t\treturn\n\t}\n\tif err := v.UnmarshalBinary(b.data[b.i:]); err != nil {\n\t\tb.fail(err)\n\t\treturn\n\t}\n\tn := v.width()\n\tif n > len(b.data)-b.i {\n\t\tb.fail(ErrMissingData)\n\t\treturn\n\t}\n\tb.i += n\n}\n\n// fail records the first error.\nfunc (b *buffer) fail(err error) {\n\tif b.err == nil {\n\t\tb.err = err\n\t}\n}\n\n"}}},
+		{Name: "get-single-exit-if-else", Silent: true, Edits: []Edit{{"buffer.go", "func (b *buffer) get(v wireType) {\n\tif b.err != nil {\n\t\treturn\n\t}\n\tif b.i >= len(b.data) {\n\t\tb.err = ErrMissingData\n\t\treturn\n\t}\n\tif b.err = v.UnmarshalBinary(b.data[b.i:]); b.err != nil {\n\t\treturn\n\t}\n\tn := v.width()\n\tif n > len(b.data)-b.i {\n\t\tb.err = ErrMissingData\n\t\treturn\n\t}\n\tb.i += n\n}\n\n", "func (b *buffer) get(v wireType) {\n\tswitch {\n\tcase b.err != nil:\n\t\treturn\n\tcase b.i >= len(b.data):\n\t\tb.err = ErrMissingData\n\t\treturn\n\t}\n\tif b.err = v.UnmarshalBinary(b.data[b.i:]); b.err != nil {\n\t\treturn\n\t}\n\tif n := v.width(); n > len(b.data)-b.i {\n\t\tb.err = ErrMissingData\n\t} else {\n\t\tb.i += n\n\t}\n}\n\n"}}},
+		{Name: "get-nested-with-joins", Silent: true, Edits: []Edit{{"buffer.go", "func (b *buffer) get(v wireType) {\n\tif b.err != nil {\n\t\treturn\n\t}\n\tif b.i >= len(b.data) {\n\t\tb.err = ErrMissingData\n\t\treturn\n\t}\n\tif b.err = v.UnmarshalBinary(b.data[b.i:]); b.err != nil {\n\t\treturn\n\t}\n\tn := v.width()\n\tif n > len(b.data)-b.i {\n\t\tb.err = ErrMissingData\n\t\treturn\n\t}\n\tb.i += n\n}\n\n", "func (b *buffer) get(v wireType) {\n\tif b.err != nil {\n\t\treturn\n\t}\n\tif b.i < len(b.data) {\n\t\tb.err = v.UnmarshalBinary(b.data[b.i:])\n\t\tif b.err == nil {\n\t\t\tif n := v.width(); n <= len(b.data)-b.i {\n\t\t\t\tb.i += n\n\t\t\t\treturn\n\t\t\t}\n\t\t\tb.err = ErrMissingData\n\t\t}\n\t\treturn\n\t}\n\tb.err = ErrMissingData\n}\n\n"}}},
+		{Name: "get-helper-form-continues-after-a-decoder-error", Rule: "R4.0", Where: "(*buffer).get", Edits: []Edit{{"buffer.go", "func (b *buffer) get(v wireType) {\n\tif b.err != nil {\n\t\treturn\n\t}\n\tif b.i >= len(b.data) {\n\t\tb.err = ErrMissingData\n\t\treturn\n\t}\n\tif b.err = v.UnmarshalBinary(b.data[b.i:]); b.err != nil {\n\t\treturn\n\t}\n\tn := v.width()\n\tif n > len(b.data)-b.i {\n\t\tb.err = ErrMissingData\n\t\treturn\n\t}\n\tb.i += n\n}\n\n", "func (b *buffer) get(v wireType) {\n\tif b.err != nil {\n\t\treturn\n\t}\n\tif b.i >= len(b.data) {\n\t\tb.fail(ErrMissingData)\n\t\treturn\n\t}\n\tif err := v.UnmarshalBinary(b.data[b.i:]); err != nil {\n\t\tb.fail(err)\n\t}\n\tn := v.width()\n\tif n > len(b.data)-b.i {\n\t\tb.fail(ErrMissingData)\n\t\treturn\n\t}\n\tb.i += n\n}\n\n// fail records the first error.\nfunc (b *buffer) fail(err error) {\n\tif b.err == nil {\n\t\tb.err = err\n\t}\n}\n\n"}}},
+		{Name: "get-if-else-form-forgets-the-error", Rule: "R4.0", Where: "(*buffer).get", Edits: []Edit{{"buffer.go", "func (b *buffer) get(v wireType) {\n\tif b.err != nil {\n\t\treturn\n\t}\n\tif b.i >= len(b.data) {\n\t\tb.err = ErrMissingData\n\t\treturn\n\t}\n\tif b.err = v.UnmarshalBinary(b.data[b.i:]); b.err != nil {\n\t\treturn\n\t}\n\tn := v.width()\n\tif n > len(b.data)-b.i {\n\t\tb.err = ErrMissingData\n\t\treturn\n\t}\n\tb.i += n\n}\n\n", "func (b *buffer) get(v wireType) {\n\tswitch {\n\tcase b.err != nil:\n\t\treturn\n\tcase b.i >= len(b.data):\n\t\tb.err = ErrMissingData\n\t\treturn\n\t}\n\tif b.err = v.UnmarshalBinary(b.data[b.i:]); b.err != nil {\n\t\treturn\n\t}\n\tif n := v.width(); n <= len(b.data)-b.i {\n\t\tb.i += n\n\t}\n}\n\n"}}},
+		{Name: "get-nested-form-compares-with-the-whole-frame", Rule: "R4.0", Where: "(*buffer).get", Edits: []Edit{{"buffer.go", "func (b *buffer) get(v wireType) {\n\tif b.err != nil {\n\t\treturn\n\t}\n\tif b.i >= len(b.data) {\n\t\tb.err = ErrMissingData\n\t\treturn\n\t}\n\tif b.err = v.UnmarshalBinary(b.data[b.i:]); b.err != nil {\n\t\treturn\n\t}\n\tn := v.width()\n\tif n > len(b.data)-b.i {\n\t\tb.err = ErrMissingData\n\t\treturn\n\t}\n\tb.i += n\n}\n\n", "func (b *buffer) get(v wireType) {\n\tif b.err != nil {\n\t\treturn\n\t}\n\tif b.i < len(b.data) {\n\t\tb.err = v.UnmarshalBinary(b.data[b.i:])\n\t\tif b.err == nil {\n\t\t\tif n := v.width(); n <= len(b.data) {\n\t\t\t\tb.i += n\n\t\t\t\treturn\n\t\t\t}\n\t\t\tb.err = ErrMissingData\n\t\t}\n\t\treturn\n\t}\n\tb.err = ErrMissingData\n}\n\n"}}},
+		{Name: "get-helper-overwrites-with-a-possibly-nil-error", Rule: "R4.0", Where: "fail", Edits: []Edit{{"buffer.go", "func (b *buffer) get(v wireType) {\n\tif b.err != nil {\n\t\treturn\n\t}\n\tif b.i >= len(b.data) {\n\t\tb.err = ErrMissingData\n\t\treturn\n\t}\n\tif b.err = v.UnmarshalBinary(b.data[b.i:]); b.err != nil {\n\t\treturn\n\t}\n\tn := v.width()\n\tif n > len(b.data)-b.i {\n\t\tb.err = ErrMissingData\n\t\treturn\n\t}\n\tb.i += n\n}\n\n", "func (b *buffer) get(v wireType) {\n\tif b.err != nil {\n\t\treturn\n\t}\n\tif b.i >= len(b.data) {\n\t\tb.fail(ErrMissingData)\n\t\treturn\n\t}\n\tif err := v.UnmarshalBinary(b.data[b.i:]); err != nil {\n\t\tb.fail(err)\n\t\treturn\n\t}\n\tn := v.width()\n\tif n > len(b.data)-b.i {\n\t\tb.fail(ErrMissingData)\n\t\treturn\n\t}\n\tb.i += n\n}\n\n// fail records the first error.\nfunc (b *buffer) fail(err error) {\n\tb.err = err\n}\n\nfunc unknownProperty(id Ident) error {\n\tif id == 0 {\n\t\treturn nil\n\t}\n\treturn fmt.Errorf(\"unknown property id 0x%02x\", id)\n}\n\n"}, {"buffer.go", "\t\t\tb.err = fmt.Errorf(\"unknown property id 0x%02x\", id)\n", "\t\t\tb.fail(unknownProperty(id))\n"}}},
 		{Name: "u16-no-length-check", Rule: "R4.2", Where: "(*wuint16).UnmarshalBinary", Edits: []Edit{{"wiretypes.go", "func (v *wuint16) UnmarshalBinary(data []byte) error {\n\tif len(data) < 2 {\n\t\treturn ErrMissingData\n\t}\n", "func (v *wuint16) UnmarshalBinary(data []byte) error {\n"}}},
 		{Name: "u32-check-too-small", Rule: "R4.2", Where: "(*wuint32).UnmarshalBinary", Edits: []Edit{{"wiretypes.go", "\tif len(data) < 4 {", "\tif len(data) < 3 {"}}},
 		{Name: "bindata-off-by-one", Rule: "R4.2", Where: "(*bindata).UnmarshalBinary", Edits: []Edit{{"wiretypes.go", "\tif len(data) < length+2 {", "\tif len(data) < length+1 {"}}},
